@@ -174,6 +174,7 @@ def h_badprice(run, cfg):
 
 
 HARNESSES = {'alloc': h_alloc, 'closeout': h_closeout, 'zero': h_zero, 'badprice': h_badprice, 'zero_at_zero_price': h_zero_at_zero_price}
+DECIMAL_REPLAYS = {'quick': 3, 'thorough': 6}      # the sizing search on two-decimal amounts (solver models are dyadic: floats exact there)
 
 
 def _ok(p, m, fee, sp=None):
